@@ -107,3 +107,71 @@ func VerifHarness_C18_export_ctx() {
 	rt.Assert(seenB == nB, "C18.other_caller_items_exported_once")
 	rt.Assert(seenA <= nA, "C06.cancelled_items_at_most_once")
 }
+
+// VerifHarness_C18_slot_wait: max_concurrency 1 and a stalled export (of a filler request) holding the only slot;
+// callers A and B (distinct contexts, 1 item each) are merged into one batch (send_batch_size 2) that has to WAIT
+// for the slot. While it waits (or at any other scheduling point) A's context may be cancelled. Then the
+// downstream moves again. B never cancelled and no export fails: B's call returns nil and B's item is exported
+// exactly once, under a context A's cancellation cannot touch. The roles are symmetric in a symbolic flag (the
+// cancelled caller may be the first or the second contributor of the batch).
+func VerifHarness_C18_slot_wait() {
+	tracer := &verifTracer{}
+	next := &verifNext{honourCtx: true, tracer: tracer, gate: make(chan struct{})}
+	bp := verifNewProcessor(next, tracer, 2, 0, 200*time.Millisecond, false, nil, 0, 1) // a timer, so that the shard waits for send_batch_size
+	if bp == nil {
+		return
+	}
+	_ = bp.Start(context.Background(), nil)
+	var wg sync.WaitGroup
+	var resF, resA, resB error
+	wg.Add(1)
+	go func() { defer wg.Done(); resF = bp.ConsumeTraces(context.Background(), verifTraces(900, 2)) }()
+	rt.Quiesce() // the filler's export is at the gate and holds the slot
+	parentA, cancelA := context.WithCancel(context.Background())
+	ctxA, sA := tracer.Start(parentA, "callerA")
+	ctxB, sB := tracer.Start(context.Background(), "callerB")
+	aFirst := rt.Bool("cancelledCallerArrivesFirst")
+	wg.Add(2)
+	if aFirst {
+		go func() { defer wg.Done(); resA = bp.ConsumeTraces(ctxA, verifTraces(100, 1)); sA.End() }()
+		rt.Quiesce()
+		go func() { defer wg.Done(); resB = bp.ConsumeTraces(ctxB, verifTraces(200, 1)); sB.End() }()
+	} else {
+		go func() { defer wg.Done(); resB = bp.ConsumeTraces(ctxB, verifTraces(200, 1)); sB.End() }()
+		rt.Quiesce()
+		go func() { defer wg.Done(); resA = bp.ConsumeTraces(ctxA, verifTraces(100, 1)); sA.End() }()
+	}
+	if rt.Bool("cancelWhileWaitingForSlot") {
+		rt.Quiesce() // the merged batch [A,B] is waiting for the slot
+		cancelA()
+	} else if rt.Bool("cancelA") {
+		wg.Add(1)
+		go func() { defer wg.Done(); cancelA() }()
+	}
+	rt.Quiesce()
+	close(next.gate)
+	wg.Wait()
+	_ = bp.Shutdown(context.Background())
+	_, _ = resA, resF
+	seenA, seenB := 0, 0
+	for _, e := range next.exports {
+		hasB := false
+		for _, id := range e.ids {
+			if id == 200 {
+				seenB++
+				hasB = true
+			}
+			if id == 100 {
+				seenA++
+			}
+		}
+		if hasB {
+			rt.Assert(!e.failed, "C18.slot_wait.export_carrying_B_not_failed_by_A")
+			rt.Assert(e.ctxErr == nil, "C18.slot_wait.export_context_alive")
+		}
+	}
+	rt.Assert(resB == nil, "C18.slot_wait.other_caller_unaffected")
+	rt.Assert(seenB == 1, "C18.slot_wait.other_caller_item_exported_once")
+	rt.Assert(seenA <= 1, "C18.slot_wait.cancelled_item_at_most_once")
+	rt.Assert(next.maxSeen <= 1, "C18.slot_wait.concurrency_bound")
+}
